@@ -128,7 +128,29 @@ def c04(res):
                       "simplifications; a case = one simplify call with its observations")
 
 
-CHECKS = {"C01": c01, "C04": c04, "C20": c20}
+def c02(res):
+    wd = workdir("C02")
+    for cfg in ("BulkDriver_W8.cfg", "BulkDriver_W1.cfg", "BulkDriver_W4.cfg"):
+        res.models.append(model_check("BulkDriver", cfg, wd, workers=2))
+    res.models.append(model_check("JitLower", "JitLower.cfg", wd, workers=4))
+    progs = gen_programs(res, wd)
+    trace = os.path.join(wd, "trace.ndjson")
+    if not run_recorder(res, "c02", [progs, res.tier, trace], wd):
+        return res.finish("recorder crashed")
+    n, rej = validate("Trace_C02", trace, wd, timeout=3000)
+    res.validated = n - len(rej)
+    res.evaluations = n
+    res.samples = sample_lines(trace, maxlen=3000)
+    res.add_rejects(trace, rej, lambda r, f: "ev=%s kind=%s fails=%s" % (r.get("ev"), r.get("kind", r.get("backend")), "+".join(f)))
+    res.assumptions = ["x86_64 only (no aarch64 host)", "reads outside the caller's slices are covered only at the level of the (offset, count) "
+                       "pairs the Rust driver hands to native code; writes are observed with guard regions",
+                       "tainted executions (NaN or zero reaching a payload / zero-sign sensitive op) are judged for shape only"]
+    return res.finish("programs from the Alloc.tla generator and seeded long programs compiled for the 12-register JIT budget with up to "
+                      "24 live values (stack spills, libm calls between live registers); every slot exported for local obligations; "
+                      "slice lengths 0..=35; a case = one nodes / point / slice observation")
+
+
+CHECKS = {"C01": c01, "C02": c02, "C04": c04, "C20": c20}
 
 
 def replay(prop, path):
